@@ -21,7 +21,20 @@ const (
 	c20GroupBase = "ou=groups,dc=example,dc=org"
 )
 
-func c20UserDN(i int) string  { return fmt.Sprintf("cn=u%02d,%s", i, c20UserBase) }
+// users 0..5 have plain names; 6..9 have RDN values with non-ASCII characters, an escaped comma, other
+// special characters and an upper-case attribute type (still fixed width: none is a substring of another)
+var c20SpecialNames = map[int]string{6: "cn=zo\u00eb 06", 7: `cn=smith\, john 07`, 8: "cn=\u00dc#08+x=y", 9: "CN=Upper09"}
+
+const c20NUsers = 10
+
+const c20SID = "S-1-5-21-1004336348-1177238915-682003330-512"
+
+func c20UserDN(i int) string {
+	if n, ok := c20SpecialNames[i]; ok {
+		return n + "," + c20UserBase
+	}
+	return fmt.Sprintf("cn=u%02d,%s", i, c20UserBase)
+}
 func c20GroupDN(i int) string { return fmt.Sprintf("cn=g%02d,%s", i, c20GroupBase) }
 
 type c20Attr struct {
@@ -130,8 +143,10 @@ func c20Exec(c c20Case, st *lab.Stats) *lab.Fail {
 	h.D.SetTokenGroups(nil)
 	h.D.SetControls()
 	for i := 0; i < 6; i++ {
-		poolUsers[i] = true
 		poolGroups[i] = true
+	}
+	for i := 0; i < c20NUsers; i++ {
+		poolUsers[i] = true
 	}
 	nc := c.Clients
 	if nc < 1 {
@@ -159,7 +174,12 @@ func c20Exec(c c20Case, st *lab.Stats) *lab.Fail {
 	}
 	// searchDN looks an entry up the way the repository's tests do.
 	searchDN := func(cn *ldap.Conn, dn string) ([]*ldap.Entry, int, error) {
-		res, err := cn.Search(&ldap.SearchRequest{BaseDN: dn, Scope: ldap.ScopeWholeSubtree, Filter: fmt.Sprintf("(%s)", dn)})
+		filter := fmt.Sprintf("(%s)", dn)
+		if _, err := ldap.CompileFilter(filter); err != nil || !isASCII(dn) {
+			// a DN that is not itself a well-formed filter item (escaped comma) or not ASCII: look it up by base DN alone
+			filter = "(objectClass=*)"
+		}
+		res, err := cn.Search(&ldap.SearchRequest{BaseDN: dn, Scope: ldap.ScopeWholeSubtree, Filter: filter})
 		code, ok := codeOf(err)
 		if !ok {
 			return nil, -1, err
@@ -231,6 +251,7 @@ func c20Exec(c c20Case, st *lab.Stats) *lab.Fail {
 	if f := checkAll(0, ""); f != nil {
 		return f
 	}
+	tokenGroupsSet := false
 	for si, s := range c.Steps {
 		cn := conns[s.Client%len(conns)]
 		mutated := ""
@@ -349,6 +370,7 @@ func c20Exec(c c20Case, st *lab.Stats) *lab.Fail {
 			var es []*gldap.Entry
 			model.groups = map[string]*c20Entry{}
 			for _, i := range s.Set {
+				i = i % 6 // the group pool has 6 entries
 				if _, dup := model.groups[c20GroupDN(i)]; dup {
 					continue
 				}
@@ -356,9 +378,29 @@ func c20Exec(c c20Case, st *lab.Stats) *lab.Fail {
 				model.groups[c20GroupDN(i)] = &c20Entry{attrs: map[string][]string{"member": {c20UserDN(i)}}}
 			}
 			h.D.SetGroups(es...)
+		case "settokengroups":
+			// the remaining Set* method: token groups of one SID (an empty set clears them)
+			if len(s.Set) == 0 {
+				h.D.SetTokenGroups(nil)
+			} else {
+				var es []*gldap.Entry
+				for _, i := range s.Set {
+					es = append(es, gldap.NewEntry(c20GroupDN(i%6), map[string][]string{"member": {c20UserDN(i % 6)}}))
+				}
+				h.D.SetTokenGroups(map[string][]*gldap.Entry{c20SID: es})
+			}
+			tokenGroupsSet = len(s.Set) > 0
 		case "search":
 			// searches by user base / group base (the per-DN searches run after every step anyway)
-			if s.How == "groupbase" {
+			if s.How == "sid" {
+				// a tokenGroups lookup: the statement says nothing about its result, only that the store keeps
+				// behaving - it must be answered, and everything after it is checked as usual
+				st.Class(fmt.Sprintf("sid-search(tokengroups-set=%v)", tokenGroupsSet))
+				_, err := cn.Search(&ldap.SearchRequest{BaseDN: "<SID=" + c20SID + ">", Scope: ldap.ScopeBaseObject, Filter: "(objectClass=*)", Attributes: []string{"tokenGroups"}})
+				if _, ok := codeOf(err); !ok {
+					return lab.Failf("search-no-answer", "step %d: tokenGroups search got no LDAP result: %v", si, err)
+				}
+			} else if s.How == "groupbase" {
 				dn := c20GroupDN(s.Group)
 				res, err := cn.Search(&ldap.SearchRequest{BaseDN: c20GroupBase, Scope: ldap.ScopeWholeSubtree, Filter: fmt.Sprintf("(cn=g%02d)", s.Group)})
 				code, ok := codeOf(err)
@@ -376,7 +418,7 @@ func c20Exec(c c20Case, st *lab.Stats) *lab.Fail {
 				if !exists && n != 0 {
 					return lab.Failf("ghost-entry", "step %d: group-base search (cn=g%02d) finds a group the model does not have", si, s.Group)
 				}
-			} else {
+			} else if _, special := c20SpecialNames[s.User]; !special {
 				dn := c20UserDN(s.User)
 				res, err := cn.Search(&ldap.SearchRequest{BaseDN: c20UserBase, Scope: ldap.ScopeWholeSubtree, Filter: fmt.Sprintf("(cn=u%02d)", s.User)})
 				code, ok := codeOf(err)
@@ -420,19 +462,19 @@ func TestC20(t *testing.T) {
 	val := rapid.OneOf(short, short, short, short, short, short, short, long)
 	lab.Prop[c20Case]{
 		ID: "C20", Part: "store",
-		Rule: "rapid state machine: up to 30 steps of Add / Modify (add-value, delete-attribute, replace; 1..3 changes) / Delete (users and groups) / Search (user base, group base) / SetUsers / SetGroups with values of 0..12 characters and occasionally 127..5000 bytes, over fixed-width DN pools (6 users, 6 groups, not substrings of one another), issued by 1..3 go-ldap clients one operation at a time; oracle = in-memory reference model updated in lock-step; after EVERY step every DN of the pool is searched (by entry DN, the way the repository's tests do) and compared with the model (values modulo one level of OCTET STRING wrapping); non-trivial = a search that follows a mutation of the same DN; distinct by hash of (step prefix, DN)",
+		Rule: "rapid state machine: up to 30 steps of Add / Modify (add-value, delete-attribute, replace; 1..3 changes) / Delete (users and groups) / Search (user base, group base, tokenGroups by SID) / SetUsers / SetGroups / SetTokenGroups with values of 0..12 characters and occasionally 127..5000 bytes, over fixed-width DN pools (10 users - four of them with non-ASCII characters, an escaped comma, #/+/= and an upper-case attribute type in the RDN -, 6 groups, not substrings of one another), issued by 1..3 go-ldap clients one operation at a time; oracle = in-memory reference model updated in lock-step; after EVERY step every DN of the pool is searched (by entry DN, the way the repository's tests do) and compared with the model (values modulo one level of OCTET STRING wrapping); non-trivial = a search that follows a mutation of the same DN; distinct by hash of (step prefix, DN)",
 		Gen: func(t *rapid.T) c20Case {
 			c := c20Case{
-				InitUsers:  rapid.SliceOfN(rapid.IntRange(0, 5), 0, 4).Draw(t, "initusers"),
+				InitUsers:  rapid.SliceOfN(rapid.IntRange(0, c20NUsers-1), 0, 5).Draw(t, "initusers"),
 				InitGroups: rapid.SliceOfN(rapid.IntRange(0, 5), 0, 3).Draw(t, "initgroups"),
 				Clients:    rapid.IntRange(1, 3).Draw(t, "clients"),
 			}
 			n := rapid.IntRange(1, 30).Draw(t, "nsteps")
 			for i := 0; i < n; i++ {
 				s := c20Step{
-					Kind:   rapid.SampledFrom([]string{"add", "add", "modify", "modify", "modify", "delete", "delete", "search", "setusers", "setgroups"}).Draw(t, "kind"),
+					Kind:   rapid.SampledFrom([]string{"add", "add", "add", "modify", "modify", "modify", "modify", "delete", "delete", "delete", "search", "search", "setusers", "setgroups", "settokengroups"}).Draw(t, "kind"),
 					Client: rapid.IntRange(0, 2).Draw(t, "client"),
-					User:   rapid.IntRange(0, 5).Draw(t, "user"),
+					User:   rapid.IntRange(0, c20NUsers-1).Draw(t, "user"),
 					Group:  rapid.IntRange(0, 5).Draw(t, "group"),
 				}
 				switch s.Kind {
@@ -459,9 +501,9 @@ func TestC20(t *testing.T) {
 				case "delete":
 					s.IsGroup = rapid.IntRange(0, 3).Draw(t, "isgroup") == 0
 				case "search":
-					s.How = rapid.SampledFrom([]string{"userbase", "groupbase"}).Draw(t, "how")
-				case "setusers", "setgroups":
-					s.Set = rapid.SliceOfN(rapid.IntRange(0, 5), 0, 4).Draw(t, "set")
+					s.How = rapid.SampledFrom([]string{"userbase", "groupbase", "sid"}).Draw(t, "how")
+				case "setusers", "setgroups", "settokengroups":
+					s.Set = rapid.SliceOfN(rapid.IntRange(0, c20NUsers-1), 0, 5).Draw(t, "set")
 				}
 				c.Steps = append(c.Steps, s)
 			}
@@ -469,4 +511,13 @@ func TestC20(t *testing.T) {
 		},
 		Exec: c20Exec,
 	}.Run(t)
+}
+
+func isASCII(s string) bool {
+	for i := 0; i < len(s); i++ {
+		if s[i] >= 0x80 {
+			return false
+		}
+	}
+	return true
 }
